@@ -36,6 +36,16 @@ CHECKS["C18"] = dict(
    text="(1) Every document of the C01 family is built at levels 0..3 and the four canonical observations (records modulo spelling, names, references, back-references, version) must be equal. (2) For every single-point mutation of the corpus (lines and documents) the accept/reject vector over levels 0..3 must be downward closed. (3) For 20 (record, field) pairs covering all tag datatypes and positional datatypes, every valid and invalid value of a menu, stand-alone and connected, levels 0..3, every program set(f,v);op1;op2 over {get, field_to_s, str, validate_field, validate, none}: a valid assignment is never reported; an invalid one raises at the assignment at level 3, is refused by field_to_s / flagged by str at level >= 2 and by validate_field/validate at every level.",
    note="What get() returns is not judged; cross-field invalidity (LN vs sequence) is only demanded from validate(); texts compared modulo canonical spelling.",
    ref="3 C18", engine="I")
+CHECKS["C05"] = dict(
+   technique="explicit-state BFS over mutation histories with step-wise conformance against a text-level reference model (gfamc/ref/doc.py)",
+   text="BFS over add / rm(id) / disconnect(instance) / rename-to-fresh / set-tag / delete-tag histories (depths in evidence.coverage.bfs) over the G1/G2 universes. After every step that the text model calls legal: the multiset of written records equals the model's text (link == complement), the referenced placeholders equal the model's mentioned-but-undefined identifiers and missing path links, no orphan placeholder is left, and whenever nothing is undefined the whole canonical observation equals that of a Gfa parsed afresh from the model's text.",
+   note="Trusted base: gfamc/ref/doc.py (cascade tables of doc/tutorial/references.rst). Steps the model calls illegal, ill-typed references and states with an ambiguous path-to-link binding (parallel links) are not judged; record order is not compared.",
+   ref="3 C05", engine="H")
+CHECKS["C08"] = dict(
+   technique="explicit-state BFS over successful histories x exhaustive failure alphabet in every state, before/after observation equality incl. one-step look-ahead",
+   text="In every state reached by <= d successful operations (version fixed, version open, vlevel 1 and 3) every call of a failure alphabet is executed: identifier clashes over all type pairs, lines of the other version, malformed lines, header lines with one good and one conflicting tag, unsupported VN, contradictory tags of multi-line groups, re-adding present lines / equal links, illegal edits of connected lines, renames onto identifiers in use, removal of unknown identifiers. If the call raised, the full observation (ordered text, version, names, references, back-references, header) and the observation after process_line_queue() on a replica must equal those before the call.",
+   note="Bounded depth/universes; the failure alphabet is the stated list; hidden state is only observed through the look-ahead.",
+   ref="3 C08", engine="H")
 NOT_BUILT = {}
 
 def main():
